@@ -1091,10 +1091,21 @@ class BlockwiseRequest(BaseUnicastRequest, interfaces.Request):
     ):
         # FIXME this can probably be deduplicated against BlockwiseRequest
 
-        if (
-            initial_response.opt.block2 is None
-            or initial_response.opt.block2.more is False
-        ):
+        if initial_response.opt.block2 is None:
+            return initial_response
+
+        requested_block = (
+            request_to_repeat.opt.block2.block_number
+            if request_to_repeat.opt.block2 is not None
+            else 0
+        )
+        if initial_response.opt.block2.block_number != requested_block:
+            # eg. a lone final block: accepting it would pass off the tail of
+            # a representation as the whole of it
+            log.error("Error assembling blockwise response (unexpected first block)")
+            raise error.UnexpectedBlock2()
+
+        if initial_response.opt.block2.more is False:
             initial_response.opt.block2 = None
             return initial_response
 
